@@ -9,6 +9,7 @@ package main
 
 import (
 	"fmt"
+	"math/big"
 	"sort"
 	"strings"
 
@@ -39,6 +40,9 @@ type caseT struct {
 	Trigs   []Trig `json:"trigs"` // creation order
 	H       []Stmt `json:"h"`
 	NoModel bool   `json:"nomodel,omitempty"` // several placement clauses for one event: plan.OrderTriggers is not modelled
+	// Pre: before the case proper, the SAME-NAMED triggers are created on another table t0 (events rotated), DML runs
+	// there, and t0 is dropped (which drops its triggers); the triggers of the case must then be creatable and fire on t
+	Pre bool `json:"pre,omitempty"`
 }
 
 var fieldSQL = map[string]string{"OldId": "OLD.id", "OldV": "OLD.v", "NewId": "NEW.id", "NewV": "NEW.v"}
@@ -276,12 +280,31 @@ func run(c *lib.Ctx, cs caseT) {
 	e := eng.New("db")
 	s := e.Session()
 	s.MustExec("CREATE TABLE t (id INT PRIMARY KEY, v INT)", "CREATE TABLE audit (k INT PRIMARY KEY AUTO_INCREMENT, tag INT, x INT, y INT)")
-	for _, t := range cs.Trigs {
-		s.MustExec(t.sql())
-	}
 	type failT struct{ sig, what string }
 	var fails []failT
 	fail := func(sig, what string) { fails = append(fails, failT{sig, what}) }
+	if cs.Pre {
+		s.MustExec("CREATE TABLE t0 (id INT PRIMARY KEY, v INT)")
+		rot := map[string]string{"ins": "upd", "upd": "del", "del": "ins"}
+		for _, t := range cs.Trigs {
+			p := t
+			p.Ev, p.Clause, p.Set = rot[t.Ev], "", ""
+			p.X, p.Y = "NewId", "NewV"
+			if p.Ev == "del" {
+				p.X, p.Y = "OldId", "OldV"
+			}
+			s.MustExec(strings.Replace(p.sql(), " ON t FOR", " ON t0 FOR", 1))
+		}
+		s.MustExec("INSERT INTO t0 VALUES (1, 1), (2, 2)", "UPDATE t0 SET v = v + 1", "DELETE FROM t0 WHERE id = 1", "DROP TABLE t0")
+		if r := s.Query("SHOW TRIGGERS"); r.Err == nil && len(r.Rows) > 0 {
+			fail("triggers-survive-drop-table", fmt.Sprintf("DROP TABLE t0 left %d trigger(s) behind", len(r.Rows)))
+		}
+	}
+	for _, t := range cs.Trigs {
+		if r := s.Query(t.sql()); r.Err != nil {
+			fail("trigger-recreate-failed", fmt.Sprintf("%s failed: %v (pre-phase with same-named triggers on a dropped table: %v)", t.sql(), r.Err, cs.Pre))
+		}
+	}
 	readT := func() [][2]int64 {
 		r := s.Query("SELECT id, v FROM t ORDER BY id")
 		if r.Err != nil {
@@ -453,8 +476,16 @@ func main() {
 		c.MismatchFn = "C23.mismatches"
 		c.SetRule("0-4 triggers per event (BEFORE/AFTER x INSERT/UPDATE/DELETE) on t (id INT PRIMARY KEY, v INT), bodies INSERT INTO audit (tag, OLD/NEW fields) " +
 			"optionally + SET NEW.v = NEW.v +|* c, at most one FOLLOWS/PRECEDES per event; 3-7 statements: multi-row INSERT (1/8 rows with a duplicate key), " +
-			"UPDATE t SET v = v + c [WHERE id = k], DELETE WHERE id >= k. Non-trivial = at least one trigger fired; distinct = distinct (triggers, history).")
+			"UPDATE t SET v = v + c [WHERE id = k], DELETE WHERE id >= k. One case in four first creates the SAME-NAMED triggers on another table " +
+			"(other events), runs DML there and drops that table; one case in six is a typed-NEW-value case (INT / DECIMAL(5,2) columns, decimal and " +
+			"string literals, AFTER INSERT trigger writing NEW.* into DECIMAL(14,5) audit columns; implementation-side predicate only). Non-trivial = at least one trigger fired; distinct = distinct (triggers, history).")
 		if c.ReplayFile != "" {
+			var tc typedCase
+			lib.LoadReplay(c.ReplayFile, &tc)
+			if tc.Typed {
+				runTyped(c, tc)
+				return
+			}
 			var cs caseT
 			lib.LoadReplay(c.ReplayFile, &cs)
 			run(c, cs)
@@ -482,8 +513,131 @@ func main() {
 		for _, cs := range corpus {
 			run(c, cs)
 		}
-		for i := len(corpus); i < c.N; i++ {
-			run(c, gen(c.R.Fork()))
+		// same-named trigger re-created after DROP TABLE, on another table and event
+		run(c, caseT{Pre: true, Trigs: []Trig{{Time: "Before", Ev: "ins", Tag: 1, X: "NewId", Y: "NewV"}, {Time: "After", Ev: "upd", Tag: 2, X: "OldV", Y: "NewV"}},
+			H: []Stmt{{K: "ins", Rows: [][2]int64{{5, 5}}}, {K: "upd", C: 2}}})
+		// typed NEW values: 1.6 into INT -> 2, '3.14159' into DECIMAL(5,2) -> 3.14
+		runTyped(c, typedCase{Typed: true, Before: true, Rows: [][][3]string{{{"1", "1.6", "'3.14159'"}, {"2", "'7'", "1.005"}}, {{"3", "2.4", "2"}, {"4", "'2.5'", "'2.5'"}}}})
+		for i := len(corpus) + 2; i < c.N; i++ {
+			switch {
+			case i%6 == 0:
+				runTyped(c, genTyped(c.R.Fork()))
+			case i%4 == 1:
+				cs := gen(c.R.Fork())
+				cs.Pre = true
+				run(c, cs)
+			default:
+				run(c, gen(c.R.Fork()))
+			}
 		}
 	})
+}
+
+// ---------------------------------------------------------------------------------------------------------------
+// Typed NEW values: AFTER INSERT triggers must see the STORED (converted) values when the INSERT supplies literals that
+// are not of the column's type (1.6 into INT -> 2, '3.14159' into DECIMAL(5,2) -> 3.14).  The audit columns are wider
+// than the table columns (DECIMAL(14,5)) so that an unconverted value would show.  Implementation-side predicate only.
+
+type typedCase struct {
+	Typed  bool        `json:"typed"`
+	Before bool        `json:"before"` // also a BEFORE INSERT trigger (not judged, it only has to leave the AFTER one alone)
+	Rows   [][][3]string `json:"rows"`  // statements -> rows -> (id, v literal, d literal) as SQL text
+}
+
+func genTyped(r *lib.RNG) typedCase {
+	tc := typedCase{Typed: true, Before: r.Chance(1, 2)}
+	id := 0
+	lit := func(dec bool) string {
+		n, f := r.Range(0, 40), r.Range(0, 99999)
+		var s string
+		switch r.Intn(4) {
+		case 0:
+			return fmt.Sprintf("%d", n)
+		case 1:
+			s = fmt.Sprintf("%d.%d", n, r.Range(1, 9))
+		case 2:
+			s = fmt.Sprintf("%d.%05d", n, f)
+		default:
+			s = fmt.Sprintf("%d.%03d", n, f%1000)
+		}
+		if r.Chance(1, 2) {
+			return "'" + s + "'"
+		}
+		_ = dec
+		return s
+	}
+	for i, n := 0, r.Range(1, 3); i < n; i++ {
+		var rows [][3]string
+		for j, m := 0, r.Range(1, 3); j < m; j++ {
+			id++
+			rows = append(rows, [3]string{fmt.Sprintf("%d", id), lit(false), lit(true)})
+		}
+		tc.Rows = append(tc.Rows, rows)
+	}
+	return tc
+}
+
+func ratOf(v interface{}) *big.Rat {
+	s := eng.Val(v)
+	s = strings.TrimPrefix(s, "d:")
+	x, ok := new(big.Rat).SetString(s)
+	if !ok {
+		return nil
+	}
+	return x
+}
+
+func runTyped(c *lib.Ctx, tc typedCase) {
+	e := eng.New("db")
+	s := e.Session()
+	s.MustExec("CREATE TABLE tt (id INT PRIMARY KEY, v INT, d DECIMAL(5,2))",
+		"CREATE TABLE audit2 (k INT PRIMARY KEY AUTO_INCREMENT, tag INT, rid INT, xi DECIMAL(14,5), xd DECIMAL(14,5))",
+		"CREATE TRIGGER ta AFTER INSERT ON tt FOR EACH ROW INSERT INTO audit2 (tag, rid, xi, xd) VALUES (1, NEW.id, NEW.v, NEW.d)")
+	if tc.Before {
+		s.MustExec("CREATE TRIGGER tb BEFORE INSERT ON tt FOR EACH ROW INSERT INTO audit2 (tag, rid, xi, xd) VALUES (2, NEW.id, NEW.v, NEW.d)")
+	}
+	type failT struct{ sig, what string }
+	var fails []failT
+	for si, rows := range tc.Rows {
+		var vs []string
+		for _, r := range rows {
+			vs = append(vs, "("+r[0]+", "+r[1]+", "+r[2]+")")
+		}
+		q := "INSERT INTO tt VALUES " + strings.Join(vs, ", ")
+		s.MustExec("DELETE FROM audit2")
+		r := s.Query(q)
+		if r.Err != nil {
+			// out of range etc. would be a generator bug: the literals are all convertible
+			fails = append(fails, failT{"typed-unexpected-error", fmt.Sprintf("%s failed: %v", q, r.Err)})
+			continue
+		}
+		for _, row := range rows {
+			st := s.Query("SELECT v, d FROM tt WHERE id = " + row[0])
+			au := s.Query("SELECT xi, xd FROM audit2 WHERE tag = 1 AND rid = " + row[0])
+			if st.Err != nil || au.Err != nil || len(st.Rows) != 1 {
+				panic(fmt.Sprintf("typed read back failed: %v %v", st.Err, au.Err))
+			}
+			if len(au.Rows) != 1 {
+				fails = append(fails, failT{"typed-after-trigger-count", fmt.Sprintf("statement %d %s: AFTER INSERT trigger fired %d times for row %s", si, q, len(au.Rows), row[0])})
+				continue
+			}
+			for j, name := range []string{"v", "d"} {
+				a, b := ratOf(st.Rows[0][j]), ratOf(au.Rows[0][j])
+				if a == nil || b == nil || a.Cmp(b) != 0 {
+					fails = append(fails, failT{"after-trigger-sees-unconverted-new/" + name, fmt.Sprintf("statement %d %s: row %s stores %s = %s but the AFTER INSERT trigger saw NEW.%s = %s",
+						si, q, row[0], name, eng.Val(st.Rows[0][j]), name, eng.Val(au.Rows[0][j]))})
+				}
+			}
+		}
+	}
+	c.Count("typed-new-value-cases")
+	id := c.CaseNoModel(tc, fmt.Sprintf("%v", tc))
+	c.PredChecked()
+	seen := map[string]bool{}
+	for _, f := range fails {
+		if !seen[f.sig] {
+			seen[f.sig] = true
+			c.PredFail(id, f.sig, f.what, tc)
+		}
+	}
 }
